@@ -55,6 +55,8 @@ let parse_sv (t : toks) : xop list =
         | "ctn" -> let n = next_z t in push (CtorN (tg, n))
         | "ctv" -> let n = next_z t in let x = next_z t in push (CtorNVal (tg, n, x))
         | "ctr" -> let xs = next_zlist t in push (CtorRange (tg, xs))
+        | "cta" -> let xs = next_zlist t in push (CtorArr (tg, xs))
+        | "cte" -> push (CtorArr (tg, []))
         | "cpi" -> let d = b t in let x = next_z t in push (CopyIndep (tg, d, x))
         | _ -> raise Not_found))
   done;
